@@ -23,9 +23,9 @@
         balance (H_sum fails for that invocation)                  class evm:selfdestruct-to-self-burns-ong
       - [c07_refuted_at_refund_height]: at height RefundHeight handleGasFee mints RefundValue for
         an under-funded sender on every chain id                   class evm:refund-height-mints-ong *)
-From Coq Require Import List Bool NArith Lia.
+From Coq Require Import List Bool NArith Lia String.
 Import ListNotations.
-From Ont Require Import Gen.EvmEnvelopeGen Model.EvmEnvelope Proofs.C07.
+From Ont Require Import Gen.EvmEnvelopeGen Model.EvmEnvelope Model.EvmFrames Proofs.C07 Proofs.C07Frames.
 Local Open Scope N_scope.
 
 Section Statement.
@@ -221,6 +221,92 @@ Proof.
 Qed.
 Print Assumptions c07_plain_transfers.
 
+(** * Every program.
+
+    Model/EvmFrames.v interprets the interpreter invocation as the tree of frames it opens (CALL,
+    CALLCODE, DELEGATECALL, STATICCALL, CREATE/CREATE2 with their values and success flags) and the
+    SELFDESTRUCTs it executes -- every balance / nonce write the interpreter can make.  For EVERY
+    such tree [o] the hypotheses H_sum, H_nonce, H_debit, H_alive (and H_revert) are theorems
+    (Proofs/C07Frames.v); what is left is H_gas (gas is not modelled) and the faithfulness of the
+    tree abstraction (checked by the harness: the tree recorded by the tracer, run by the model,
+    must reproduce the state observed when the interpreter returned). *)
+
+(** The calls that write balances, nonces, code or the suicide set in vm/evm/*.go and
+    smartcontract/service/evm/*.go (inventory regenerated from the source) are exactly the ones the
+    two models mirror. *)
+Theorem c07_write_sites_as_modelled : List.length STATE_WRITE_SITES = 16%nat /\
+  List.map (fun x => snd (fst x)) STATE_WRITE_SITES =
+  ["Call"; "StaticCall"; "create"; "create"; "create"; "create"; "opSuicide"; "opSuicide"; "Transfer"; "Transfer";
+   "buyGas"; "handleGasFee"; "TransitionDb"; "TransitionDb"; "TransitionDb"; "refundGas"]%string.
+Proof. rewrite write_sites_as_modelled. split; reflexivity. Qed.
+Print Assumptions c07_write_sites_as_modelled.
+
+(** The four clauses for every program that does not SELFDESTRUCT to its own address. *)
+Theorem c07_all_programs_partial :
+  forall R clean (e : env) (s : state R) (m : msg) (U : list addr) (o : frame_oracle),
+    wf_msg m -> NoDup U -> In (m_from m) U -> In (gas_receiver e) U ->
+    In (tree_target m o) U -> incl (addrs_l (fo_body o)) U ->
+    (forall a, suicided s a = false) -> has_code s (m_from m) = false ->
+    (forall a, nonce s a + 2 + creates_l (fo_body o) < U64) ->
+    H_gas R (run_of_tree (height e) o) e s m ->
+    no_sd_self_l (tree_target m o) (fo_body o) = true ->
+    let out := handle_eip155 clean (run_of_tree (height e) o) e s m in
+    (chain_id e <> EIP155_CHAINID_MAINNET -> height e <> REFUND_HEIGHT -> total U (snd out) = total U s) /\
+    bal s (m_from m) <= bal (snd out) (m_from m) + m_gas m * m_price m + m_value m /\
+    (forall r, fst out = OOk r -> nonce (snd out) (m_from m) = nonce s (m_from m) + 1) /\
+    (m_check_nonce m = true -> nonce s (m_from m) <> m_nonce m -> exists err, out = (OErr err, s)).
+Proof.
+  intros R clean e s m U o Hwf Hnd Hf Hr Ht Hb Hsu Hc Hroom Hg Hn.
+  assert (Hmax : nonce s (m_from m) + 1 < U64) by (pose proof (Hroom (m_from m)); lia).
+  apply (c07_envelope_partial R clean (run_of_tree (height e) o) e s m U Hwf Hnd Hf Hr Hsu Hmax Hg).
+  - apply (tree_sum R e s m o Hwf Hroom U Hnd Hf Ht Hb Hn).
+  - apply (tree_nonce R e s m o Hwf Hc (Hsu _) Hroom).
+  - apply (tree_debit R e s m o Hwf Hc (Hsu _) Hroom).
+  - apply (tree_alive R e s m o Hwf Hc (Hsu _) Hroom).
+Qed.
+Print Assumptions c07_all_programs_partial.
+
+(** Whatever the program does (SELFDESTRUCT to itself included) no ONG is ever created: the sum
+    can only go down, the compensation payment at RefundHeight aside. *)
+Theorem c07_programs_never_mint_partial :
+  forall R clean (e : env) (s : state R) (m : msg) (U : list addr) (o : frame_oracle),
+    wf_msg m -> NoDup U -> In (m_from m) U -> In (gas_receiver e) U ->
+    In (tree_target m o) U -> incl (addrs_l (fo_body o)) U ->
+    (forall a, nonce s a + 2 + creates_l (fo_body o) < U64) ->
+    H_gas R (run_of_tree (height e) o) e s m ->
+    exists mint,
+      total U (snd (handle_eip155 clean (run_of_tree (height e) o) e s m)) <= total U s + mint /\
+      (height e <> REFUND_HEIGHT -> mint = 0) /\ mint <= REFUND_VALUE.
+Proof.
+  intros R clean e s m U o Hwf Hnd Hf Hr Ht Hb Hroom Hg.
+  apply (ong_never_minted R clean _ U e s m Hwf Hnd Hf Hr Hg).
+  apply (tree_sum_le R e s m o Hwf Hroom U Hnd Hf Ht Hb).
+Qed.
+Print Assumptions c07_programs_never_mint_partial.
+
+(** A transaction whose top frame fails (revert, out of gas, invalid opcode, ...) costs the fee
+    and changes nothing else, for every program: H2 is a theorem of the frame model. *)
+Theorem c07_failed_program_only_fee_partial :
+  forall R clean (e : env) (s : state R) (m : msg) (o : frame_oracle) r,
+    wf_msg m -> (forall a, suicided s a = false) -> has_code s (m_from m) = false ->
+    (forall a, nonce s a + 2 + creates_l (fo_body o) < U64) ->
+    H_gas R (run_of_tree (height e) o) e s m -> oracle_ok o ->
+    m_from m <> gas_receiver e ->
+    buygas_fixed (chain_id e) (height e) = true -> height e <> REFUND_HEIGHT ->
+    let out := handle_eip155 clean (run_of_tree (height e) o) e s m in
+    fst out = OOk r -> vm_error r <> None ->
+    bal (snd out) (m_from m) + used_gas r * m_price m = bal s (m_from m) /\
+    bal (snd out) (gas_receiver e) = bal s (gas_receiver e) + used_gas r * m_price m /\
+    (forall a, a <> m_from m -> a <> gas_receiver e -> bal (snd out) a = bal s a) /\
+    (forall a, a <> m_from m -> nonce (snd out) a = nonce s a) /\
+    (forall a, has_code (snd out) a = has_code s a).
+Proof.
+  intros R clean e s m o r Hwf Hsu Hc Hroom Hg Ho Hne Hfix Hh out.
+  apply (failed_tx_only_fee R clean _ e s m r Hwf Hg); try assumption.
+  apply (tree_revert R e s m o Hwf Hc (Hsu _) Hroom Ho).
+Qed.
+Print Assumptions c07_failed_program_only_fee_partial.
+
 (** * Refutations and sharpness (concrete witnesses; the driver replays each on the implementation) *)
 
 (* accounts: 1 = sender (nonce 7), 2 = fee receiver, 3 = callee *)
@@ -244,6 +330,22 @@ Proof.
   specialize (Hc Hne). vm_compute in Hc. discriminate.
 Qed.
 Print Assumptions c07_refuted_by_selfdestruct_self.
+
+(** The same witness with the interpreter given as its effect tree (code ADDRESS SELFDESTRUCT:
+    one SELFDESTRUCT whose beneficiary is the callee itself). *)
+Theorem c07_refuted_by_selfdestruct_self_tree :
+  ~ c07_statement unit clean0 (run_of_tree 100 (mkFO 3 true [ESelfDestruct 3] 73998 24000 None)).
+Proof.
+  intros H.
+  assert (W1 : wf_msg (msg0 100000 wei_price 7)) by (repeat split; rewrite U64_val; vm_compute; reflexivity).
+  assert (W6 : nonce (st0 1000000000000000000 5000 true) (m_from (msg0 100000 wei_price 7)) + 1 < U64)
+    by (rewrite U64_val; vm_compute; reflexivity).
+  destruct (H (polaris 100) (st0 1000000000000000000 5000 true) (msg0 100000 wei_price 7) U0
+              W1 U0_nodup (or_introl eq_refl) (or_intror (or_introl eq_refl)) (fun _ => eq_refl) W6) as (Hc & _).
+  assert (Hne : chain_id (polaris 100) <> EIP155_CHAINID_MAINNET) by (vm_compute; discriminate).
+  specialize (Hc Hne). vm_compute in Hc. discriminate.
+Qed.
+Print Assumptions c07_refuted_by_selfdestruct_self_tree.
 
 (** Which hypothesis breaks: H1, and only H1. *)
 Theorem h1_refuted_by_selfdestruct_self :
